@@ -258,7 +258,7 @@ type names struct {
 	procs *interner
 }
 
-// a processor reference "B.k" -> (Some B, k); "k" -> (None, k); more dots -> not generated
+// a processor reference "B.k" -> PR (Some B) k cond; "k" -> PR None k cond
 func (n *names) procRef(p *ProcRef) string {
 	owner := "None"
 	name := p.Name
@@ -266,7 +266,7 @@ func (n *names) procRef(p *ProcRef) string {
 		owner = c.Some(c.Z(n.flows.id(name[:i])))
 		name = name[i+1:]
 	}
-	return c.Tuple(owner, c.Z(n.procs.id(name)), c.Z(condID(p.Cond)))
+	return "(PR " + owner + " " + c.Z(n.procs.id(name)) + " " + c.Z(condID(p.Cond)) + ")"
 }
 
 func (n *names) end(e End) string {
@@ -280,24 +280,24 @@ func (n *names) end(e End) string {
 	if e.Proc != nil {
 		p = c.Some(n.procRef(e.Proc))
 	}
-	return c.Tuple(s, f, p)
+	return "(EP " + s + " " + f + " " + p + ")"
 }
 
 func (n *names) conns(cs []Conn) string {
-	return c.MapList(cs, func(cn Conn) string { return c.Tuple(n.end(cn.From), n.end(cn.To)) })
+	return c.MapList(cs, func(cn Conn) string { return "(CN " + n.end(cn.From) + " " + n.end(cn.To) + ")" })
 }
 
-// coqConfig renders the configuration for the model:
-// list (name, has-url, processors (key, key-has-dot, type, params), request, response), quota-exists
+// coq renders the configuration for the model (C05/Model.v, record constructors
+// CF / FC / PD / CN / EP / PR)
 func (cf *Config) coq(n *names) string {
 	fl := c.MapList(cf.Flows, func(f FlowCfg) string {
 		procs := c.MapList(f.Procs, func(p Proc) string {
-			return c.Tuple(c.Z(n.procs.id(p.Key)), c.B(strings.Contains(p.Key, ".")), c.Z(typeID(p.Type)),
-				c.MapList(p.Params, func(k string) string { return c.Z(paramID(k)) }))
+			return "(PD " + c.Z(n.procs.id(p.Key)) + " " + c.B(strings.Contains(p.Key, ".")) + " " + c.Z(typeID(p.Type)) + " " +
+				c.MapList(p.Params, func(k string) string { return c.Z(paramID(k)) }) + ")"
 		})
-		return c.Tuple(c.Z(n.flows.id(f.Name)), c.B(f.URL != ""), procs, n.conns(f.Req), n.conns(f.Res))
+		return "(FC " + c.Z(n.flows.id(f.Name)) + " " + c.B(f.URL != "") + " " + procs + " " + n.conns(f.Req) + " " + n.conns(f.Res) + ")"
 	})
-	return c.Tuple(fl, c.B(len(cf.Quotas) > 0))
+	return "(CF " + fl + " " + c.B(len(cf.Quotas) > 0) + ")"
 }
 
 // keyID: the model's node key for a processor reference name ("k" / "B.k")
